@@ -105,23 +105,26 @@ class ResourceSet(object):
         uri_str = ''
         if nb_fragments == 2:
             uri_str, fragment = fragment
-            if uri_str in self.resources:
-                return True
+        # a relative path is first taken relative to the referring resource:
+        # the same relative string names different files from different
+        # directories
         start = from_resource.uri.normalize() if from_resource else '.'
         apath = path.dirname(start)
         uri = URI(path.join(apath, uri_str))
-        return uri.normalize() in self.resources
+        if uri.normalize() in self.resources:
+            return True
+        return nb_fragments == 2 and uri_str in self.resources
 
     def resolve(self, uri, from_resource=None):
         upath = URIMapper.translate(Resource.normalize(uri), from_resource)
         uri_str, fragment = upath.rsplit('#', maxsplit=1)
-        if uri_str in self.resources:
-            root = self.resources[uri_str]
-        else:
-            start = from_resource.uri.normalize() if from_resource else '.'
-            apath = path.dirname(start)
-            uri = URI(path.join(apath, uri_str))
+        start = from_resource.uri.normalize() if from_resource else '.'
+        apath = path.dirname(start)
+        uri = URI(path.join(apath, uri_str))
+        if uri.normalize() in self.resources:
             root = self.resources[uri.normalize()]
+        else:
+            root = self.resources[uri_str]
         if isinstance(root, Resource):
             root_number, fragment = Resource.extract_rootnum_and_frag(fragment)
             root = root.contents[root_number]
@@ -462,7 +465,11 @@ class Resource(object):
             external_uri.plain = norm_plain
             external_uri._split()
             resource = rset.get_resource(external_uri)
-            if external_uri.plain != original_uri:
+            # an alias is only needed for a URI that cannot be found again
+            # relatively to this resource (a mapped or converted URI): the
+            # same relative path names other files from other directories
+            if external_uri.plain != original_uri \
+                    and not rset.can_resolve(f'{original_uri}#', self):
                 rset.resources[original_uri] = resource
             return rset
         except Exception as e:
